@@ -20,6 +20,7 @@ FIXES = [
     ("fixed-C05-float-literal-inf", "C05", "non_finite_float_delivered", "Float literals beyond"),
     ("fixed-C11-default-string-not-escaped", "C11", "differs", "string default values"),
     ("fixed-C02-unprintable-exception-lands-in-data", "C02", "data_mismatch", "exception whose __str__ raises"),
+    ("fixed-C11-schema-extension-directive-only", "C11", "type_differs", "directive-only schema extension"),
 ]
 
 
